@@ -822,6 +822,22 @@ fn enumerate_schemas_base(thorough: bool) -> Vec<Schema> {
         b.st("G-tag", Shape::Named, enc, None, vec![fld(0, FTy::U8), f1, fld(2, FTy::OptU8)]);
     }
 
+    // tag numbers on both sides of every head-width boundary, at every level (type, variant, field)
+    for (k, t) in [23u64, 24, 255, 256, 65535, 65536, 0xffff_ffff, 0x1_0000_0000, u64::MAX].iter().enumerate() {
+        let enc = if k % 2 == 0 { None } else { Some(Enc::Map) };
+        let mut f0 = fld(0, FTy::OptU8);
+        f0.tag = Some(*t);
+        let mut f1 = fld(1, FTy::U8);
+        f1.tag = Some(*t);
+        b.st("G-tag", Shape::Named, enc, Some(*t), vec![f0.clone(), f1.clone()]);
+        b.st("G-tag", Shape::Tuple, enc, None, vec![f0.clone(), fld(1, FTy::OptU8)]);
+        let variants = vec![
+            VariantS { idx: 0, shape: Shape::Unit, enc: None, tag: Some(*t), fields: vec![] },
+            VariantS { idx: 1, shape: Shape::Tuple, enc: None, tag: Some(*t), fields: vec![f0.clone(), f1.clone()] },
+        ];
+        b.push("G-tag", false, Kind::Enum(EnumS { enc, tag: Some(*t), index_only: false, variants }));
+    }
+
     // tagged optional fields followed by two or three more fields (running length accounting across fields)
     for enc in [None, Some(Enc::Map)] {
         let mut f0 = fld(0, FTy::OptU8);
